@@ -21,7 +21,7 @@ MANIFEST = {
     "technique": "contract-based modular verification with CBMC: real Plan::UnmarkDependents against its own contract for the recursive calls; bounded neighbourhood size",
 }
 
-KEYS = ["M7"]
+KEYS = ["M7", "M9"]
 
 
 def jobs(tier, mutant=None):
@@ -41,6 +41,7 @@ MUTANTS = [
     ("cycle_reported_from_stack_bottom", _m("VerifyDAG", "  *start = node;\n", "  start = stack->begin();\n  *start = node;\n")),
     ("finished_edges_reported_as_cycles", _m("VerifyDAG", "if (edge->mark_ != Edge::VisitInStack)", "if (edge->mark_ == Edge::VisitNone)")),
     ("edge_not_marked_in_stack", _m("RecomputeNodeDirty", "  edge->mark_ = Edge::VisitInStack;\n", "")),
+    ("dependents_not_rescanned", _m("RefreshDyndepDependents", "    if (!scan->RecomputeDirty(n, &validation_nodes, err))\n      return false;", "    if (false)\n      return false;")),
     ("stops_at_first_unplanned", _m("UnmarkDependents", "    if (want_e == want_.end())\n      continue;\n", "    if (want_e == want_.end())\n      break;\n")),
 ]
 
